@@ -357,6 +357,10 @@ start:
 					s.setOuter(v, NeverNil)
 				case "ssa:wrapnilchk":
 					s.setOuter(v, NeverNil)
+				case "recover":
+					// recover returns nil when the goroutine isn't
+					// panicking, and the panic value can be anything.
+					s.set(v, ValueNilness{MaybeNil, MaybeNil})
 				default:
 					panic(fmt.Sprintf("internal error: unhandled builtin %s", callee.Name()))
 				}
